@@ -31,6 +31,10 @@ CHECKS = {
    text="Rule trees are written through the public with-block API (refinement / alternative / next_rule, nesting depth <= 3, <= 6 branches, one- and two-variable bases); every branch has its own inferred type and its own symbolic threshold, attribute values are unbounded z3 integers. On every path of the real rule.py / conclusion_selector.py / engine code the solver decides, per written branch and per binding, that the number of instances of the branch's type equals what a reference ripple-down-rules reading (a z3 term) prescribes, and that each instance was built from the values of its binding.",
    note="2 objects per domain (3 in thorough one-variable cases); sibling refinements and alternatives after a next_rule are outside (their semantics are not fixed by the property). The many pre-existing tree-surgery defects are listed per (tree, branch) in known_findings.json; all other (tree, branch) pairs are fully checked. Trusted: z3, symx proxies, the 40-line reference reading.",
    technique=SYMX),
+ "C11": dict(category="model_checking", design="DESIGN.md 4 C11",
+   text="Each pattern form of entity_matching / match / select / match_any / match_all (scalar literal, membership, collection literal, nested match with same type / subclass / type only, nested match on a collection, existential and universal collection constraints on objects and ints, two constraints, select variants) is built through the public API and evaluated by the real match.py + engine code on symbolic data: attribute values and literals are unbounded z3 integers, collection membership is a bounded symbolic mask (with repeated elements), elements may be value-equal but distinct, the domain holds a foreign-typed element. Per path the solver decides that the result is exactly the set of domain elements of the type for which a direct Python predicate holds (and the stated multiplicity / consistency of selected parts).",
+   note="0..2 (quick) / 0..3 (thorough) elements, pool of 2-3 inner objects, depth <= 2, elements of int collections bounded 0..2 (they are hashed by the engine). Trusted: z3, symx proxies, the per-pattern oracle predicates.",
+   technique=SYMX),
 }
 NA_REASON = "check not built yet (build in progress, see DESIGN.md section 9 for the build order)"
 NA = {}
